@@ -85,8 +85,23 @@ def import_classes_of(gram: dict) -> list[str]:
 # --------------------------------------------------------------------------- abstract syntax trees
 
 
-def node(gram: dict, cls: str, tag: str = "", **fields: Any) -> ANode:
-    """Abstract node of a grammar class: list fields empty, optional fields None, everything else an unknown symbol."""
+_PRIMITIVE = {"identifier": "x", "int": 0, "string": "s", "constant": None}
+
+
+def _representative(gram: dict, typ: str, depth: int) -> Any:
+    """A value of a grammar type: primitives natively, node types by their simplest concrete class."""
+    if typ in _PRIMITIVE:
+        return _PRIMITIVE[typ]
+    cands = concrete_classes_of(typ, gram)
+    if not cands or depth > 4:
+        return Sym(f"<{typ}>")
+    prefer = {"expr": "Name", "expr_context": "Load", "stmt": "Pass", "pattern": "MatchAs"}
+    c = prefer.get(typ) if prefer.get(typ) in cands else min(cands, key=lambda k: (sum(1 for _f, t in gram[k] if not t.endswith(("*", "?"))), len(gram[k]), k))
+    return node(gram, c, _depth=depth + 1)
+
+
+def node(gram: dict, cls: str, tag: str = "", _depth: int = 0, **fields: Any) -> ANode:
+    """Abstract node of a grammar class: list fields empty, optional fields None, mandatory fields a representative of their type."""
     f: dict[str, Any] = {}
     for fname, typ in gram[cls]:
         if fname in fields:
@@ -96,7 +111,7 @@ def node(gram: dict, cls: str, tag: str = "", **fields: Any) -> ANode:
         elif typ.endswith("?"):
             f[fname] = None
         else:
-            f[fname] = Sym(f"{cls}.{fname}")
+            f[fname] = _representative(gram, typ, _depth)
     return ANode(cls, f, tag)
 
 
@@ -114,7 +129,7 @@ def import_leaf(gram: dict, cls: str, names: list[str], module: Any = None, leve
 def filler(gram: dict, i: int) -> ANode:
     if i % 2:
         return node(gram, "Pass")
-    return node(gram, "Expr", value=node(gram, "Name", id=Sym("x", "str")))
+    return node(gram, "Expr", value=node(gram, "Name", id="x"))
 
 
 def positions_of(gram: dict) -> tuple[list[tuple[str, str, str]], dict[str, list[tuple[str, str]]]]:
@@ -160,6 +175,7 @@ class Collector:
         self.opaque = {hierarchy_fq} if hierarchy_fq else set()
         self.paths = 0
         self.fallbacks: set[str] = set()
+        self.entered: set[str] = set()
 
     def run(self, tree: ANode, prefix: Any, internal: Any, importer: Any) -> list[Run]:
         repo = self.repo
@@ -182,6 +198,7 @@ class Collector:
         runs = ex.explore(entry)
         self.paths += len(runs)
         self.fallbacks |= ex.fallbacks
+        self.entered |= ex.entered
         return runs
 
 
@@ -276,7 +293,7 @@ def run_r1(repo: Repo, res: Result, gram: dict, col: Collector, leaves: list[str
     res.floor("C02.R1", 20, n_oblig)
     # converse at the collector: no statement, no record
     try:
-        tree = node(gram, "Module", body=[filler(gram, 0), node(gram, "If", test=Sym("t"), body=[filler(gram, 1)], orelse=[filler(gram, 0)])])
+        tree = node(gram, "Module", body=[filler(gram, 0), node(gram, "If", body=[filler(gram, 1)], orelse=[filler(gram, 0)])])
         runs = col.run(tree, Sym("prefix", "anystr"), Sym("internal", "set"), F)
         bad = [r for r in runs if r.outcome == "return" and r.value]
         res.add(
@@ -520,7 +537,9 @@ def import_record_classes(repo: Repo) -> list:
 def run_r5_creators(repo: Repo, res: Result, col: Collector) -> None:
     T = types_of(repo)
     rec_fqs = {c.fq for c in import_record_classes(repo)}
-    allowed = {f.fq for f in reachable_funcs(repo, [col.entry], byname=False)}
+    # the collector's call tree: statically resolved calls plus every function the symbolic runs of `convert` actually entered
+    # (covers library-dispatched callbacks such as ast.NodeVisitor.visit_*)
+    allowed = {f.fq for f in reachable_funcs(repo, [col.entry], byname=False)} | col.entered
     n = 0
     for f in repo.all_functions():
         for call in calls_in(f.node):
@@ -573,6 +592,15 @@ def run_r5_graph(repo: Repo, res: Result) -> None:
             return True
         return None
 
+    def known_node(r: Run, e, t: Any) -> bool:
+        """has_node(t) was established before the edge is added and no node has been removed since."""
+        for at, v in e.path.items():
+            if v and at.fn.startswith("hasnode@") and at.args == (e.obj.name, t):
+                since = int(at.fn.split("@")[1])
+                if since <= e.version and not any(x.kind == "ext" and x.obj is e.obj and x.name in ("remove_node", "remove_nodes_from", "clear") and since <= x.version < e.version for x in r.effects):
+                    return True
+        return False
+
     orient_bad: list[str] = []
     known_bad: list[str] = []
     drop_bad: list[str] = []
@@ -596,7 +624,7 @@ def run_r5_graph(repo: Repo, res: Result) -> None:
                 continue
             got = got or not e.in_loop
             for t in (x, y):
-                if e.path.get(App(f"hasnode@{e.version}", (e.obj.name, t))) is not True:
+                if not known_node(r, e, t):
                     known_bad.append(f"the edge {show(x)} -> {show(y)} is added without a check that {show(t)} is a known module: imported names that are not modules become edges / nodes")
         if not r.main or r.outcome != "return" or got:
             if r.main and r.outcome == "raise":
